@@ -35,6 +35,8 @@ pub enum Call {
     Cubes(usize, bool, usize),
     /// extra formula built directly on the shared diagram: (kind, operand a, operand b, var, val)
     Extra(usize, usize, usize, usize, bool),
+    /// the documented repair step, called although nothing was imported (a public API call like any other)
+    FixImport,
 }
 
 const BUILTIN_HEUS: [&str; 4] = ["Simple", "MinModMinPathsMaxVarImp", "MinModMaxVarImpMinPaths", "Rand"];
@@ -62,6 +64,7 @@ fn random_call(rng: &mut Rng, n: usize, handles: usize, bio: bool) -> Call {
         19 => Call::Passive(rng.below(n)),
         20 => Call::Active(rng.below(n)),
         21 => Call::Cubes(rng.below(handles), rng.bool(), rng.below(n)),
+        22 if rng.chance(1, 3) => Call::FixImport,
         _ => Call::Extra(rng.below(7), rng.below(handles), rng.below(handles), rng.below(n), rng.bool()),
     }
 }
@@ -90,16 +93,13 @@ impl Live {
 
 fn models_ans(models: &[Vec<Term>], perm: &[usize], keep_first: bool) -> Ans {
     let vals: Vec<Vec<Val>> = to_vals_set(models, perm);
-    let mut strs: Vec<String> = vals.iter().map(|v| show_vals(v)).collect();
-    let first = strs.first().cloned().unwrap_or_default();
-    strs.sort();
+    // information level, ORDER KEPT: the sequence in which models are delivered is observable
+    // (the CLI prints in this order) and must not depend on the history of the object either
+    let strs: Vec<String> = vals.iter().map(|v| show_vals(v)).collect();
+    let _ = keep_first;
     Ans {
         exact: format!("{:?}", models),
-        canon: if keep_first {
-            format!("first={} set={:?}", first, strs)
-        } else {
-            format!("{:?}", strs)
-        },
+        canon: format!("{:?}", strs),
     }
 }
 
@@ -213,6 +213,10 @@ pub fn perform(live: &mut Live, call: &Call, o: &Objs, perm: &[usize], n: usize,
             let s = format!("{:?}", c);
             Ans { exact: s.clone(), canon: s }
         }
+        Call::FixImport => {
+            adf.fix_import();
+            Ans { exact: "()".into(), canon: "()".into() }
+        }
         Call::Extra(kind, a, b, v, val) => {
             let (ta, tb) = (live.handles[*a], live.handles[*b]);
             let r = match kind {
@@ -228,6 +232,19 @@ pub fn perform(live: &mut Live, call: &Call, o: &Objs, perm: &[usize], n: usize,
             let tt = tt_of(&adf.bdd.nodes, r, n).map(|t| t.hex()).unwrap_or_else(|e| e);
             Ans { exact: format!("{}", r), canon: tt }
         }
+    }
+}
+
+/// order-free form of an ordered model list rendering (for the comparison with the definition)
+fn set_form(canon: &str, keep_first: bool) -> String {
+    let list: Vec<String> = serde_json::from_str(canon).unwrap_or_default();
+    let first = list.first().cloned().unwrap_or_default();
+    let mut sorted = list;
+    sorted.sort();
+    if keep_first {
+        format!("first={} set={:?}", first, sorted)
+    } else {
+        format!("{:?}", sorted)
     }
 }
 
@@ -489,7 +506,7 @@ pub fn history_case(cfg: &Cfg, rep: &mut Report, case_seed: u64, persistence: bo
         if let Some(want) = oracle_canon(&case, call) {
             rep.count("oracle_comparisons", 1);
             sem_kinds.insert(std::mem::discriminant(call));
-            if want != a1.canon {
+            if want != set_form(&a1.canon, matches!(call, Call::Complete)) {
                 rep.violation(
                     "history-answer-vs-oracle",
                     format!("call #{} {:?}: {} but the definition gives {}", idx, call, a1.canon, want),
